@@ -44,20 +44,20 @@ func fetchKeys(iterator func(string) ([]string, string, error), keyBatchChan cha
 			return
 		}
 
-		if len(ks) == 0 {
-			break
-		}
-
-		select {
-		case keyBatchChan <- keyBatchEvent{keys: ks}:
-		case <-doneChan:
+		if len(ks) > 0 {
 			select {
-			case keyBatchChan <- keyBatchEvent{err: status.ErrInterrupted}:
-			default:
+			case keyBatchChan <- keyBatchEvent{keys: ks}:
+			case <-doneChan:
+				select {
+				case keyBatchChan <- keyBatchEvent{err: status.ErrInterrupted}:
+				default:
+				}
+				return
 			}
-			return
 		}
 
+		// an empty page (e.g. all keys filtered out) is not the end of the listing: only the
+		// absence of a continuation token is.
 		if next == "" {
 			break
 		}
